@@ -142,6 +142,11 @@ def none_present(cond, d, b):
             if U(a.elt) == "%s not in %s" % (U(a.generators[0].target), b):
                 return "good"
             return "bad"
+    # a test on the VALUE stored for a member (first_of / broker.get / broker[...] compared with None or taken for its truth) is not a presence test:
+    # a dependency that legitimately evaluated to None / a falsy value would count as missing
+    if any(isinstance(x, ast.Call) and (call_name(x) in ("first_of", "dr.first_of") or (call_attr(x) == "get" and U(x.func.value) == b)) for x in ast.walk(cond)) \
+            or any(isinstance(x, ast.Subscript) and U(x.value) == b for x in ast.walk(cond)):
+        return "bad"
     bad_markers = ("issubset", "issuperset", "any(", "all(", ".intersection(", "isdisjoint", " & ", " <= ", " < ", " in ")
     if any(k in t for k in bad_markers):
         return "bad"
